@@ -17,7 +17,10 @@ their own copy. `go/extract/complexitylabels.go` translates both copies into a `
   `unicode.ToUpper` on the first rune is ASCII upper-casing).
 * `NameExpr`, `Part` — a template action producing a name, a stretch of template text / an action.
 * `KeyPart` — the Go expression after `switch`: a `+` chain of the parameters `typeName`, `field` and literals.
-* `Guard` — `{{ if not $object.IsReserved }}` / `{{ if not $field.IsReserved }}`.
+* `Guard` — `{{ if not $object.IsReserved }}` / `{{ if not $field.IsReserved }}`; a guard may also read the KIND of
+  the object (`$object.Root`: a root of the schema, `$object.Stream`: the subscription root) - `Guard.objAttr`,
+  evaluated on `GObject.attrs`. A faithful flavour does not depend on it (`Faithful.objGuard` is stated for every
+  valuation of the attributes): the fields of Query, Mutation and Subscription get their clauses like any other.
 * `Flavour` — everything one template says about the switch and about `ComplexityRoot`.
 * `sarmOf` / `sarms` / `dispatchArm` / `dispatchBy` / `switchCustomBy` — the generated switch, by flavour, over
   strings: the clause of a group carries one label per guarded member, `case` before the first and the body
@@ -94,6 +97,8 @@ inductive KeyPart where
 inductive Guard where
   | objReserved
   | fieldReserved
+  /-- `$object.<name>`: another boolean attribute of `codegen.Object` (`Root`, `Stream`) -/
+  | objAttr (name : String)
   | not (g : Guard)
   | and (a b : Guard)
   | or (a b : Guard)
@@ -125,12 +130,14 @@ def evalKey : List KeyPart → String → String → String
   | [], _, _ => ""
   | p :: ps, t, f => p.eval t f ++ evalKey ps t f
 
-def Guard.eval : Guard → Bool → Bool → Bool
-  | .objReserved, o, _ => o
-  | .fieldReserved, _, f => f
-  | .not g, o, f => !(g.eval o f)
-  | .and a b, o, f => a.eval o f && b.eval o f
-  | .or a b, o, f => a.eval o f || b.eval o f
+/-- `Guard.eval g attr objReserved fieldReserved`; `attr` = which of the object's other attributes hold -/
+def Guard.eval : Guard → (String → Bool) → Bool → Bool → Bool
+  | .objReserved, _, o, _ => o
+  | .fieldReserved, _, _, f => f
+  | .objAttr n, av, _, _ => av n
+  | .not g, av, o, f => !(g.eval av o f)
+  | .and a b, av, o, f => a.eval av o f && b.eval av o f
+  | .or a b, av, o, f => a.eval av o f || b.eval av o f
 
 abbrev Path := List Part × List Part
 
@@ -174,12 +181,12 @@ def bodyMember (g : String × List GField) : GField :=
   | none => { name := "", goName := g.1 }
 
 def sarmOf (fl : Flavour) (o : GObject) (g : String × List GField) : SArm :=
-  { labels := (g.2.filter fun f => fl.fieldGuard.eval o.reserved f.reserved).map fun f => evalParts fl.label o.name f
+  { labels := (g.2.filter fun f => fl.fieldGuard.eval o.has o.reserved f.reserved).map fun f => evalParts fl.label o.name f
     nilEntry := evalPath fl.nilCheck o.name (bodyMember g)
     callEntry := evalPath fl.call o.name (bodyMember g) }
 
 def sarmsOf (fl : Flavour) (o : GObject) : List SArm :=
-  if fl.objGuard.eval o.reserved false then (uniqueFields o.fields).map (sarmOf fl o) else []
+  if fl.objGuard.eval o.has o.reserved false then (uniqueFields o.fields).map (sarmOf fl o) else []
 
 def sarms (fl : Flavour) (objs : List GObject) : List SArm := objs.flatMap (sarmsOf fl)
 
@@ -211,11 +218,11 @@ def switchCustomBy (fl : Flavour) (objs : List GObject) (root : GoRoot) : Custom
 
 /-- the entries `ComplexityRoot` declares for one object: struct field name and func field names -/
 def rootDecl (fl : Flavour) (o : GObject) : Option (String × List String) :=
-  if fl.rootObjGuard.eval o.reserved false then
+  if fl.rootObjGuard.eval o.has o.reserved false then
     some (evalParts fl.rootStruct o.name { name := "", goName := "" },
       (uniqueFields o.fields).filterMap fun g =>
         match g.2.head? with
-        | some f => if fl.rootFieldGuard.eval o.reserved f.reserved then some (evalParts fl.rootEntry o.name f) else none
+        | some f => if fl.rootFieldGuard.eval o.has o.reserved f.reserved then some (evalParts fl.rootEntry o.name f) else none
         | none => none)
   else none
 
@@ -234,14 +241,16 @@ structure Faithful (fl : Flavour) : Prop where
   tag : ∀ t f, evalKey fl.tag t f = t ++ "." ++ f
   /-- the label of a member is the lookup key of the schema's own spelling of type and field -/
   label : ∀ o fd, evalParts fl.label o fd = evalKey fl.tag o fd.name
-  objGuard : ∀ r b, fl.objGuard.eval r b = !r
-  fieldGuard : ∀ r b, fl.fieldGuard.eval r b = !b
+  /-- the clauses of an object are emitted unless it is reserved - whatever KIND of object it is (a root, the
+      subscription root, an ordinary type): `av` ranges over every valuation of `$object.Root` / `$object.Stream` -/
+  objGuard : ∀ av r b, fl.objGuard.eval av r b = !r
+  fieldGuard : ∀ av r b, fl.fieldGuard.eval av r b = !b
   /-- the body calls `ComplexityRoot.<UcFirst type>.<GoFieldName>` -/
   call : ∀ o fd, evalPath fl.call o fd = (ucFirst o, fd.goName)
   /-- the nil check reads the selector that is called -/
   nilCheck : ∀ o fd, evalPath fl.nilCheck o fd = evalPath fl.call o fd
-  rootObjGuard : ∀ r b, fl.rootObjGuard.eval r b = !r
-  rootFieldGuard : ∀ r b, fl.rootFieldGuard.eval r b = !b
+  rootObjGuard : ∀ av r b, fl.rootObjGuard.eval av r b = !r
+  rootFieldGuard : ∀ av r b, fl.rootFieldGuard.eval av r b = !b
   /-- `ComplexityRoot` declares what the body addresses -/
   rootStruct : ∀ o fd, evalParts fl.rootStruct o fd = ucFirst o
   rootEntry : ∀ o fd, evalParts fl.rootEntry o fd = fd.goName
